@@ -118,7 +118,11 @@ func VerifH_C09_splunkAnswers() {
 	_ = root.DecodeString(`{"k":"v"}`)
 	verifBodies = nil
 	var wd pipeline.WorkerData
-	err := p.out(&wd, pipeline.NewPreparedBatch([]*pipeline.Event{{Root: root, Size: 9}}))
+	var err error
+	batch := pipeline.NewPreparedBatch([]*pipeline.Event{{Root: root, Size: 9}})
+	// several workers run out() on the one plugin object at once: whatever it writes must be per worker (WorkerData)
+	writes := vf.SharedWrites(p, func() { err = p.out(&wd, batch) })
+	vf.Assert(writes == 0, "out-does-not-write-to-the-plugin-shared-by-the-workers")
 	accepted := verifRespCode == 200 && (bk == 0 || bk == 6)
 	done := accepted || verifRespCode == 400
 	if vf.Param("twin", 0) == 1 {
